@@ -2,11 +2,24 @@
   Driver/C03.lean — line-protocol front end of Model/Ctxt.lean.
     stream `c03` : (c03 VARIANT (P…)) → OBS;OBS;…      one `{xKEY=VAL,…}` (sorted by key) per observation, in order
       VARIANT ::= concrete | erased | boxed | option | assert | assertdyn | assertarc | ref | box | arc | boxdyn | slot
+                | tp | defpush | defpushdyn | optnone
                                                           which `Ctxt` impl the harness drives (`boxed` = erased frames
-                                                          too large for inline storage); the model only takes the
-                                                          storage class from it
-      P ::= (obs C) | (new F C KIND (props (xKEY VAL)…)) | (use F MODE P…) | (on T P…) | (catch P…) | (panic)
-          | (drop F) | (tasks ((task A…)…) (sched (I T)…))
+                                                          too large for inline storage); the model takes from it the
+                                                          storage class, and
+                                                            defpush / defpushdyn: a user Ctxt with only the required
+                                                              methods → `open_push` / `open_disabled` are the trait
+                                                              defaults (`viaDefault`);
+                                                            optnone: `Option::<ThreadLocalCtxt>::None` (`observationsOpt false`);
+                                                            tp: `TraceparentCtxt<ThreadLocalCtxt>` — transparent as long
+                                                              as no props carry the key `span_id` (such cases are
+                                                              rejected: bad-op)
+      P ::= (obs C) | (new F C KIND (props (xKEY VAL)…)) | (new F C KIND (props …) reent) | (use F MODE P…) | (on T P…)
+          | (catch P…) | (panic) | (drop F) | (parts F) | (tasks ((task A…)…) (sched (I T)…))
+                                                          `reent` (KIND push|root only): the props value calls
+                                                          `ctxt.with_current` while it is enumerated by `open_*` and
+                                                          records what it sees — one observation of the ENCLOSING view
+                                                          just before the frame exists (none under optnone: the props
+                                                          are never enumerated);  `parts`: into_parts + from_parts
       MODE ::= enter | with | gwith | call | (infn T)       KIND ::= push | root | disabled | current
       A ::= (sync P…) | (yield) | (aframe F C KIND (props …) A…) | (ause F A…)
       VAL ::= (i N) | (s xHEX)
@@ -66,39 +79,65 @@ def sched? : Sexp → Option (List (Nat × Nat))
     | _ => none
   | _ => none
 
+/-- How the variant named in the case line enters the model. -/
+structure Variant where
+  inl : Bool := true            -- erased frames stored inline
+  dflt : Bool := false          -- `open_push` / `open_disabled` are the trait defaults
+  present : Bool := true        -- `false`: the ctxt is `Option::None`
+  noSpanId : Bool := false      -- the key `span_id` may not occur (TraceparentCtxt would claim it)
+
+/-- `Frame::<kind>(ctxt, props)` as the variant's ctxt has it -/
+def Variant.frame (v : Variant) (k : Kind) (ps : List (String × Val)) : Option (Kind × List (String × Val)) :=
+  if v.noSpanId && ps.any (fun kv => kv.1 == "span_id") then none
+  else some (if v.dflt then viaDefault k ps else (k, ps))
+
 mutual
-partial def prog? : Sexp → Option (Prog Val)
-  | .list [.atom "obs", c] => c.nat?.map Prog.obs
+/-- one S-expression gives one or two program items (`reent` adds the observation made from inside `open_*`) -/
+partial def prog? (v : Variant) : Sexp → Option (List (Prog Val))
+  | .list [.atom "obs", c] => c.nat?.map fun c => [Prog.obs c]
   | .list [.atom "new", f, c, k, ps] => do
     let f ← f.nat?
     let c ← c.nat?
     let k ← kind? k
     let ps ← props? ps
-    pure (.new f c k ps)
+    let (k, ps) ← v.frame k ps
+    pure [.new f c k ps]
+  | .list [.atom "new", f, c, k, ps, .atom "reent"] => do
+    let f ← f.nat?
+    let c ← c.nat?
+    let k ← kind? k
+    let ps ← props? ps
+    if k != .push && k != .root then none
+    let (k, ps) ← v.frame k ps
+    pure ((if v.present then [Prog.obs c] else []) ++ [.new f c k ps])
   | .list (.atom "use" :: f :: m :: body) => do
     let f ← f.nat?
     let m ← mode? m
-    let body ← body.mapM prog?
-    pure (.use f m body)
+    let body ← progs? v body
+    pure [.use f m body]
   | .list (.atom "on" :: t :: body) => do
     let t ← t.nat?
-    let body ← body.mapM prog?
-    pure (.on t body)
+    let body ← progs? v body
+    pure [.on t body]
   | .list (.atom "catch" :: body) => do
-    let body ← body.mapM prog?
-    pure (.catch_ body)
-  | .list [.atom "panic"] => some .panic
-  | .list [.atom "drop", f] => f.nat?.map Prog.drop
+    let body ← progs? v body
+    pure [.catch_ body]
+  | .list [.atom "panic"] => some [.panic]
+  | .list [.atom "drop", f] => f.nat?.map fun f => [Prog.drop f]
+  | .list [.atom "parts", f] => f.nat?.map fun f => [Prog.parts f]
   | .list [.atom "tasks", .list ts, sc] => do
     let ts ← ts.mapM fun
-      | .list (.atom "task" :: as) => as.mapM aprog?
+      | .list (.atom "task" :: as) => as.mapM (aprog? v)
       | _ => none
     let sc ← sched? sc
-    pure (.tasks ts sc)
+    pure [.tasks ts sc]
   | _ => none
-partial def aprog? : Sexp → Option (AProg Val)
+partial def progs? (v : Variant) (xs : List Sexp) : Option (List (Prog Val)) := do
+  let ys ← xs.mapM (prog? v)
+  pure ys.flatten
+partial def aprog? (v : Variant) : Sexp → Option (AProg Val)
   | .list (.atom "sync" :: ps) => do
-    let ps ← ps.mapM prog?
+    let ps ← progs? v ps
     pure (.sync ps)
   | .list [.atom "yield"] => some .yield
   | .list (.atom "aframe" :: f :: c :: k :: ps :: body) => do
@@ -106,11 +145,12 @@ partial def aprog? : Sexp → Option (AProg Val)
     let c ← c.nat?
     let k ← kind? k
     let ps ← props? ps
-    let body ← body.mapM aprog?
+    let (k, ps) ← v.frame k ps
+    let body ← body.mapM (aprog? v)
     pure (.aframe f c k ps body)
   | .list (.atom "ause" :: f :: body) => do
     let f ← f.nat?
-    let body ← body.mapM aprog?
+    let body ← body.mapM (aprog? v)
     pure (.ause f body)
   | _ => none
 end
@@ -118,20 +158,27 @@ end
 def renderObs (m : List (String × Val)) : String :=
   "{" ++ ",".intercalate (m.map fun kv => atomOfString kv.1 ++ "=" ++ kv.2.render) ++ "}"
 
-def variant? : Sexp → Option Bool
-  | .atom "concrete" => some true
-  | .atom "erased" => some true
-  | .atom "option" => some true
+def variant? : Sexp → Option Variant
+  | .atom "concrete" => some {}
+  | .atom "erased" => some {}
+  | .atom "option" => some {}        -- `Some(ctxt)`: theorem `option_some_transparent`
   -- forwarding wrappers around the concrete ctxt: transparent (theorem `wrappers_transparent`), the model is the same
-  | .atom "assert" => some true
-  | .atom "assertdyn" => some true
-  | .atom "assertarc" => some true
-  | .atom "ref" => some true
-  | .atom "box" => some true
-  | .atom "arc" => some true
-  | .atom "boxdyn" => some true
-  | .atom "slot" => some true
-  | .atom "boxed" => some false
+  | .atom "assert" => some {}
+  | .atom "assertdyn" => some {}
+  | .atom "assertarc" => some {}
+  | .atom "ref" => some {}
+  | .atom "box" => some {}
+  | .atom "arc" => some {}
+  | .atom "boxdyn" => some {}
+  | .atom "slot" => some {}
+  | .atom "boxed" => some { inl := false }
+  -- `TraceparentCtxt<ThreadLocalCtxt>`: theorem `traceparent_ctxt_transparent`
+  | .atom "tp" => some { noSpanId := true }
+  -- a user Ctxt with only the required methods (and the same behind `Arc<dyn ErasedCtxt>`): `trait_default_is_viaDefault`
+  | .atom "defpush" => some { dflt := true }
+  | .atom "defpushdyn" => some { dflt := true }
+  -- `Option::None`: theorem `option_none_inert`
+  | .atom "optnone" => some { present := false }
   | _ => none
 
 /-- coverage signature: nesting depth reached, number of threads and contexts touched, features used -/
@@ -151,19 +198,19 @@ def signature (evs : List (Ev Val)) (line : String) : String :=
   else
     let cs := line.toList
     let has (s : String) : String := if hasInfix s.toList cs then "1" else "0"
-    s!"depth={min depth 6},thr={threads},tasks={has "(tasks"},panic={has "(panic)"},infn={has "(infn"},yield={has "(yield)"}"
+    s!"depth={min depth 6},thr={threads},tasks={has "(tasks"},panic={has "(panic)"},infn={has "(infn"},yield={has "(yield)"},reent={has " reent)"},parts={has "(parts "}"
 
 def runC03 (line : String) : String :=
   match Sexp.parse line with
   | some (.list [.atom "c03", v, .list ps]) =>
-    match variant? v, ps.mapM prog? with
-    | some inl, some ps =>
+    match (variant? v).bind fun v => (progs? v ps).map fun ps => (v, ps) with
+    | some (v, ps) =>
       match compileL 0 [] (desugarL ps) with
       | some (evs, _) =>
-        let obs := observations (St.init Val inl) evs
+        let obs := observationsOpt v.present (St.init Val v.inl) evs
         ";".intercalate (obs.map renderObs) ++ "\t" ++ signature evs line
       | none => "bad-op"
-    | _, _ => "bad-op"
+    | none => "bad-op"
   | _ => "bad-op"
 
 def streams : List (String × (String → String)) := [("c03", runC03)]
